@@ -1295,6 +1295,7 @@ SPECIALS = ([{"family": "online", "node": nd, "trained": tr, "how": how} for nd 
             + [{"family": "namedesn", "how": how} for how in ("deepcopy", "pickle")]
             + [{"family": "fbclamp", "forced_on": w} for w in ("copy", "original")]
             + [{"family": "legacyact"}]
+            + [{"family": "legacyreload", "fb": fb} for fb in (False, True)]
             + [{"family": "interleaved", "how": hw, "fitted_before": fb} for hw, fb in ((("deepcopy", "pickle"), True), (("deepcopy", "deepcopy"), True),
                                                                                       (("pickle", "pickle"), False))]
             + [{"family": "concatrefit", "how": how, "names": nm, "widths": w, "fit_before": fbf}
@@ -1478,6 +1479,49 @@ def _judge_interleaved(sc):
     return None
 
 
+def _judge_legacy_reload(sc):
+    """a legacy ESN saved ONCE; a first loaded instance is edited in place by its user (W *= 0.5, Wout[:] = 0, Win += 1): loading the saved model a
+    second time, and converting it with load_compat, still reproduce the outputs of the model that was saved (a loaded model shares nothing with the files)"""
+    import os
+    import shutil
+    import tempfile
+    import reservoirpy as rpy
+    rpy.verbosity(0)
+    from reservoirpy.compat import ESN, load, load_compat
+    rs = np.random.RandomState(sc["seed"] % (2 ** 31))
+    N, din, dout = 5, 2, 2
+    W = rs.randint(-4, 5, (N, N)) / 16.0
+    Win = rs.randint(-4, 5, (N, din + 1)) / 4.0
+    Wfb = rs.randint(-4, 5, (N, dout)) / 8.0 if sc["fb"] else None
+    X, Y = rs.randint(-8, 9, (20, din)) / 8.0, rs.randint(-8, 9, (20, dout)) / 8.0
+    tmp = tempfile.mkdtemp(prefix="c16reload_")
+    try:
+        kw = dict(lr=0.5, W=W, Win=Win, input_bias=True, ridge=0.125)
+        if sc["fb"]:
+            kw.update(Wfb=Wfb, fbfunc=np.tanh)
+        esn = ESN(**kw)
+        esn.train([X], [Y], workers=1)
+        ref = np.asarray(esn.run([X], workers=1)[0][0])
+        saved = os.path.join(tmp, "saved")
+        esn.save(saved)
+        first = load(saved)
+        first.W *= 0.5
+        first.Wout[:] = 0.0
+        first.Win += 1.0
+        second = load(saved)
+        d2 = float(np.max(np.abs(np.asarray(second.run([X], workers=1)[0][0]) - ref)))
+        conv = load_compat(saved)
+        d3 = float(np.max(np.abs(np.asarray(conv.run(X)) - ref)))
+        if d2 > 1e-9 or d3 > 1e-9:
+            return _viol("legacy:loaded-instance-aliases-saved-files", "a legacy ESN is saved, loaded and the loaded instance edited in place (W *= 0.5, Wout[:] = 0, Win += 1): "
+                         "loading the same saved model again differs from the saved model by %.3g, load_compat by %.3g" % (d2, d3), sc, 0.0, [d2, d3])
+    except Exception as e:  # noqa: BLE001
+        return _viol("legacy:reload:exception", "save / load / edit / load again raises %r" % (e,), sc)
+    finally:
+        shutil.rmtree(tmp, ignore_errors=True)
+    return None
+
+
 def _judge(sc):
     if sc["family"] == "fbclamp":
         return _judge_fbclamp(sc)
@@ -1485,6 +1529,8 @@ def _judge(sc):
         return _judge_legacy_activation(sc)
     if sc["family"] == "interleaved":
         return _judge_interleaved(sc)
+    if sc["family"] == "legacyreload":
+        return _judge_legacy_reload(sc)
     if sc["family"] == "legacy_noise":
         return _judge_legacy_noise(sc)
     if sc["family"] == "collision":
